@@ -246,7 +246,7 @@ def float_py_outputs(p, e, container="list", reverse=False, cal_container="set")
 
             st_ = p.symtab()
             cfg = python.Config(common_subexpression_elimination=True, innovation_filtering=None)
-            ekf = python.compile_ekf(p.ui_model(container, cal_container=cal_container), {st_[c]: float(p.process_noise[c]) for c in p.control}, p.sympy_sensors(reverse=reverse), p.sympy_sensor_noise(), pyh.float_calibration_map(p, e), config=cfg)
+            ekf = python.compile_ekf(p.ui_model(container, cal_container=cal_container), {st_[c]: float(p.process_noise[c]) for c in p.control}, p.sympy_sensors(reverse=reverse), p.sympy_sensor_noise(reverse=True), pyh.float_calibration_map(p, e), config=cfg)
             st = ekf.State(**{s: float(e[s]) for s in p.state})
             ct = ekf.Control(**{c: float(e[c]) for c in p.control})
             cov = ekf.Covariance.from_data(pyh.float_cov(p.state, e))
@@ -341,7 +341,16 @@ def task_twin(p, rho, rrho, variant, tier, seed, label):
             path = write_replay(PID, {"key": f"{key_base}/raises", "info": {"kind": "twin", "program": p.id, "rho": rho, "rrho": rrho, "variant": variant}, "inputs": e0, "exception": repr(bad[0].value)[:300]})
             part.violation(f"{key_base}/raises", f"twin definition ({label}) raises {type(bad[0].value).__name__}: {str(bad[0].value)[:200]} while the original is accepted", path)
         else:
-            part.harness_error(f"{key_base}: {la} {lb}")
+            # the ORIGINAL definition fails too: decide on the real, unshimmed code whether it is refused there as well
+            e0 = _twin_float_env(p, random.Random(seed))
+            try:
+                float_py_outputs(p, e0)
+                part.harness_error(f"{key_base}: {la} {lb}")
+            except pyh.GateRejected:
+                part.harness_error(f"{key_base}: {la} {lb}")
+            except Exception as ex:
+                path = write_replay(PID, {"key": f"{key_base}/original-raises", "info": {"kind": "twin", "program": p.id, "rho": {}, "rrho": {}, "variant": {}}, "inputs": e0, "exception": f"{type(ex).__name__}: {ex}"})
+                part.violation(f"{key_base}/original-raises", f"a valid definition (noise maps declared in another order than the sensor maps; binding is by key) is refused / crashes: {type(ex).__name__}: {str(ex)[:200]}", path)
         return part.d
     oa, ob = la[0].value, lb[0].value
     sub = inv_subst(p, q, rrho, len(p.sensors), "invB", "invA")
